@@ -261,7 +261,7 @@ fn scenario(p: &TxwParams, faults: bool, rep: &Report) -> Result<(), String> {
     if p.mode == "transaction" {
         // (in session mode an idle client legitimately keeps its server)
         let mut rng = Rng::new(p.seed ^ 0x1D1E);
-        let endings = ["simple_ok", "simple_error_pre", "simple_error_mid", "copy_out_error_mid", "copy_out_ok", "copy_in_fail", "copy_in_ok", "batch_parse_error", "block_commit", "block_error_rollback", "block_copy_in_ok_commit", "block_copy_out_ok_commit"];
+        let endings = ["simple_ok", "simple_error_pre", "simple_error_mid", "copy_out_error_mid", "copy_out_ok", "copy_in_fail", "copy_in_ok", "batch_parse_error", "block_commit", "block_error_rollback", "block_copy_in_ok_commit", "block_copy_out_ok_commit", "lone_sync", "close_statement_then_sync", "same_named_parse_twice"];
         let k = rng.range(1, 4) as usize;
         let mut idlers = vec![];
         for i in 0..k {
@@ -291,6 +291,25 @@ fn scenario(p: &TxwParams, faults: bool, rep: &Report) -> Result<(), String> {
                     b.extend(crate::proto::execute("", 0));
                     b.extend(crate::proto::sync());
                     c.send(&b).map_err(|e| e.to_string()).and_then(|_| c.read_until_ready(10_000).map(|_| ()).map_err(|(m, e)| format!("{:?} {}", e, summarize(&m))))
+                }
+                // batches the pooler may answer by itself (nothing, or nothing new, for the server)
+                "lone_sync" => c.send(&crate::proto::sync()).map_err(|e| e.to_string()).and_then(|_| c.read_until_ready(10_000).map(|_| ()).map_err(|(m, e)| format!("{:?} {}", e, summarize(&m)))),
+                "close_statement_then_sync" => {
+                    let mut b = crate::proto::close(b'S', "never_prepared");
+                    b.extend(crate::proto::sync());
+                    c.send(&b).map_err(|e| e.to_string()).and_then(|_| c.read_until_ready(10_000).map(|_| ()).map_err(|(m, e)| format!("{:?} {}", e, summarize(&m))))
+                }
+                "same_named_parse_twice" => {
+                    let mut r = Ok(());
+                    for _ in 0..2 {
+                        let mut b = crate::proto::parse("idler_stmt", "SELECT 1 /*v q=idler.shared rows=1 */", &[]);
+                        b.extend(crate::proto::sync());
+                        r = c.send(&b).map_err(|e| e.to_string()).and_then(|_| c.read_until_ready(10_000).map(|_| ()).map_err(|(m, e)| format!("{:?} {}", e, summarize(&m))));
+                        if r.is_err() {
+                            break;
+                        }
+                    }
+                    r
                 }
                 "block_commit" => run(&mut c, format!("BEGIN {}", tag(&id, &q(1), ""))).and_then(|_| run(&mut c, format!("COMMIT {}", tag(&id, &q(2), "")))),
                 // a successful COPY inside an explicit transaction block, committed
